@@ -294,13 +294,13 @@ HARNESSES = [
             decides='FileStorage.pack to any time: all snapshots at/after it identical for reachable objects (data, revision '
                     'ids, next-revision ids, loadSerial), no dangling references, later transactions listed/iterable/'
                     'undoable, nothing invented, repeat/earlier pack is a no-op, same after reopen',
-            symbolic='stop (pack time as 8 free bytes)', bounds='histories G1 (9 txns, 7 objects), G0 (no undo record), G2 (back-pointer chains: change/undo/change/undo), G3 (object unlinked and modified in one transaction, resurrected by a later undo), G4 (an undo transaction with two records of one object, pointed back at by a later undo); gc on/off',
+            symbolic='stop (pack time as 8 free bytes)', bounds='histories G1 (9 txns, 7 objects), G0 (no undo record), G2 (back-pointer chains: change/undo/change/undo), G3 (object unlinked and modified in one transaction, resurrected by a later undo), G4 (an undo transaction with two records of one object, pointed back at by a later undo), G5 (an object that is garbage for a while and linked back in by an undo of its holder); gc on/off',
             oracle='differential against the pre-pack model + reachability over the model', pure_python=True,
             code=['FileStorage.pack', 'fspack.GC.findReachable/findReachableAtPacktime/findReachableFromFuture/findrefs',
                   'FileStoragePacker.pack/copyToPacktime/copyDataRecords/copyRest/copyOne', 'PackCopier', 'serialize.referencesf',
                   '_redundant_pack'],
-            quick=dict(timeout=170, shards=shards(gc=[True, False], variant=['G1'], reopen=[True]) + shards(gc=[True], variant=['G2', 'G3', 'G4'], reopen=[False])),
-            thorough=dict(timeout=900, shards=shards(gc=[True, False], variant=['G1', 'G0', 'G2', 'G3', 'G4'], reopen=[True, False]))),
+            quick=dict(timeout=170, shards=shards(gc=[True, False], variant=['G1'], reopen=[True]) + shards(gc=[True], variant=['G2', 'G3', 'G4', 'G5'], reopen=[False])),
+            thorough=dict(timeout=900, shards=shards(gc=[True, False], variant=['G1', 'G0', 'G2', 'G3', 'G4', 'G5'], reopen=[True, False]))),
     Harness('pack_mapping', h_pack_mapping,
             decides='MappingStorage.pack to any time preserves every snapshot at/after it for reachable objects; repeat pack harmless',
             symbolic='stop (8 free bytes)', bounds='history G0 (8 txns)', oracle='differential against the pre-pack model', pure_python=True,
